@@ -30,7 +30,7 @@ def shards(tier, seed):
     common.quiet()
     ts = c02.types_for(tier)
     ts = ts[seed % len(ts):] + ts[: seed % len(ts)]
-    return cseam.plan_batches(ts, 16)
+    return cseam.plan_batches(ts, 16) + [["methods"]]
 
 
 def class_source(t):
@@ -49,6 +49,46 @@ CTX_LINES = "typedef int c15_ctx_marker_cpu; //only_for_context cpu_serial cpu_o
 def tokens(text):
     text = "\n".join(l for l in text.split("\n") if "c15_ctx_marker" not in l)  # (the restricted lines differ between targets by design)
     return [x for x in TOK.findall(text) if x not in QUAL]
+
+
+PP_DEFS = ["-D__global=", "-D__kernel=", "-D__global__=", "-D__device__=", "-Drestrict="]
+
+
+def pp_tokens(text):
+    """token stream of `text` after the C preprocessor has resolved its conditionals (target keywords defined away)"""
+    import subprocess
+
+    text = "\n".join(l for l in text.split("\n") if "c15_ctx_marker" not in l and not l.lstrip().startswith("#include"))
+    p = subprocess.run(["gcc", "-E", "-P", "-x", "c", "-w"] + PP_DEFS + ["-"], input=text.encode(), stdout=subprocess.PIPE, stderr=subprocess.PIPE, timeout=120)
+    if p.returncode:
+        raise RuntimeError("preprocessor: " + p.stderr.decode("utf8", "replace")[-600:])
+    return [x for x in TOK.findall(p.stdout.decode("utf8", "replace")) if x not in QUAL]
+
+
+def doubled_checks(src, t, phase, res, bad, label="doubled"):
+    """the guarded API text may appear more than once in a source (a bundle that carries the API it relies on, behind the API
+    the build emits): specialised for each target, what the preprocessor keeps of the doubled text is what it keeps of the
+    single text, and the same on every target"""
+    from xobjects.specialize_source import specialize_source
+
+    ref = None
+    for tg in TARGETS:
+        res.transitions += 1
+        res.events["doubled"] += 1
+        try:
+            one = pp_tokens(specialize_source(src, specialize_for=tg))
+            two = pp_tokens(specialize_source(src + "\n" + src, specialize_for=tg))
+        except Exception as e:
+            bad("C15.host-compiles", "doubled-source-not-preprocessable:" + tg, t, repr(e)[-800:], target=tg, phase=phase, source=label)
+            continue
+        if one != two:
+            k = next((i for i, (a, b) in enumerate(zip(two, one)) if a != b), min(len(one), len(two)))
+            bad("C15.same-computation", "doubled-source-differs-from-single:" + tg, t, "at token %d: ...%s... vs ...%s..." % (k, " ".join(two[max(0, k - 6) : k + 6]), " ".join(one[max(0, k - 6) : k + 6])), target=tg, phase=phase, source=label)
+        if ref is None:
+            ref = two
+        elif two != ref:
+            k = next((i for i, (a, b) in enumerate(zip(two, ref)) if a != b), min(len(two), len(ref)))
+            bad("C15.same-computation", "token-streams-differ", t, "doubled source, %s vs cpu_serial at token %d: ...%s... vs ...%s..." % (tg, k, " ".join(two[max(0, k - 6) : k + 6]), " ".join(ref[max(0, k - 6) : k + 6])), target=tg, phase=phase, source=label)
 
 
 def unqualified_pointers(text):
@@ -79,6 +119,8 @@ def _text_checks(t, phase, res, bad):
             bad("C15.specialise", "raises:" + common.exc_failure(e), t, repr(e), phase=phase)
             return
         res.cases += 1
+        if phase != "after-cpu-build":
+            doubled_checks(src, t, phase, res, bad)
         ref = tokens(forms["cpu_serial"])
         for tg in TARGETS[1:]:
             res.transitions += 1
@@ -108,6 +150,79 @@ def _text_checks(t, phase, res, bad):
         res.states += 1
 
 
+def method_worlds():
+    """hand-declared classes: union references that declare methods (the API then holds a dispatching function whose cases
+    sit between conditionals of their own), with one or two members and one or two methods, held by a struct / an array"""
+    import xobjects as xo
+
+    worlds = []
+    for nm, nmeth in ((1, 1), (2, 1), (2, 2)):
+        tag = "M%d%d" % (nm, nmeth)
+        meths = ["weigh", "gauge"][:nmeth]
+        members = []
+        for k in range(nm):
+            name = "C15%s_m%d" % (tag, k)
+            fields = {"a": xo.Float64, "b": xo.Int32[:] if k else xo.Int64}
+            extra = "\n".join("/*gpufun*/ double %s_%s(%s obj, double s){ return s + %s_get_a(obj) + %d; }" % (name, m, name, name, k) for m in meths)
+            members.append(type(name, (xo.Struct,), dict(fields, _extra_c_sources=[extra])))
+        U = type("C15%s_u" % tag, (xo.UnionRef,), dict(_reftypes=tuple(members), _methods=[xo.Method(c_name=m, args=[xo.Arg(xo.Float64, name="s")], ret=xo.Arg(xo.Float64)) for m in meths]))
+        H = type("C15%s_h" % tag, (xo.Struct,), dict(u=U, k=xo.Float64))
+        worlds.append((tag, [H], U))
+        worlds.append((tag + "arr", [U[:]], U))
+    return worlds
+
+
+def run_methods(res, bad):
+    from xobjects.context import sort_classes, sources_from_classes, _concatenate_sources
+    from xobjects.specialize_source import specialize_source
+
+    work = tempfile.mkdtemp(prefix="xoverif-c15m-", dir=os.getcwd())
+    try:
+        for tag, roots, U in method_worlds():
+            res.cases += 1
+            res.states += 1
+            classes = sort_classes(roots)
+            source, _ = _concatenate_sources(sources_from_classes(classes))
+            # the source the build emits, and a bundle behind it that carries the API of the union it relies on
+            usrc = U._gen_c_api()
+            usrc = usrc.source if hasattr(usrc, "source") else usrc
+            for label, src in (("build", CTX_LINES + source), ("build+bundle", CTX_LINES + source + "\n" + usrc)):
+                forms = {}
+                for tg in TARGETS:
+                    res.transitions += 1
+                    res.events["methods"] += 1
+                    try:
+                        forms[tg] = specialize_source(src, specialize_for=tg)
+                    except Exception as e:
+                        bad("C15.specialise", "raises:" + common.exc_failure(e), None, repr(e), world=tag, source=label, target=tg)
+                if len(forms) < len(TARGETS):
+                    continue
+                try:
+                    pp = {tg: pp_tokens(forms[tg]) for tg in TARGETS}
+                except Exception as e:
+                    bad("C15.host-compiles", "not-preprocessable", None, repr(e)[-800:], world=tag, source=label)
+                    continue
+                for tg in TARGETS[1:]:
+                    if pp[tg] != pp["cpu_serial"]:
+                        k = next((i for i, (a, b) in enumerate(zip(pp[tg], pp["cpu_serial"])) if a != b), min(len(pp[tg]), len(pp["cpu_serial"])))
+                        bad("C15.same-computation", "token-streams-differ", None, "%s vs cpu_serial at token %d: ...%s... vs ...%s..." % (tg, k, " ".join(pp[tg][max(0, k - 6) : k + 6]), " ".join(pp["cpu_serial"][max(0, k - 6) : k + 6])), world=tag, source=label, target=tg)
+                up = unqualified_pointers(forms["opencl"])
+                if up:
+                    bad("C15.global-qualifier", "pointer-without-__global", None, "; ".join(up[:4]), world=tag, source=label, target="opencl")
+                for tg in TARGETS:
+                    fn = os.path.join(work, "m_%s_%s.%s" % (tag, tg, "cpp" if tg == "cuda" else "c"))
+                    pre = "#include <stdint.h>\n" + ('extern "C"{\n' if tg == "cuda" else "")
+                    open(fn, "w").write(pre + forms[tg] + ("\n}\n" if tg == "cuda" else "\n"))
+                    cmd = (["g++"] if tg == "cuda" else ["gcc", "-std=c99"]) + ["-fsyntax-only", "-w"] + PP_DEFS[:4] + [fn]
+                    res.transitions += 1
+                    res.events["compile"] += 1
+                    rc, out, err = cnative.run(cmd, work)
+                    if rc:
+                        bad("C15.host-compiles", "rejected-by-host-compiler:" + tg, None, "%s\n%s" % (" ".join(cmd), err[-1500:]), world=tag, source=label, target=tg)
+    finally:
+        shutil.rmtree(work, ignore_errors=True)
+
+
 def run_shard(types, tier, seed):
     from xobjects.specialize_source import specialize_source
 
@@ -122,6 +237,12 @@ def run_shard(types, tier, seed):
     def text_checks(t, phase):
         """(i) + qualifier rule for one type; `phase` says in which process state the source was generated"""
         return _text_checks(t, phase, res, bad)
+
+    if types and types[0] == "methods":
+        run_methods(res, bad)
+        res.nontrivial = res.states
+        res.max_depth = 1
+        return res
 
     # (i) + qualifier rule, per type
     for ti, t in enumerate(types):
@@ -191,6 +312,8 @@ def run_shard(types, tier, seed):
 
 def replay(case):
     t = xt.retuple(case["type"]) if case.get("type") else None
+    if t is None and case.get("world"):
+        return [v for v in run_shard(["methods"], "quick", 0).violations if v["case"].get("world") == case["world"]]
     if t is None:
         return []
     return run_shard([t], "quick", 0).violations
